@@ -143,9 +143,11 @@ def gen_args(rng):
         if rng.random() < 0.5:
             return [big_value(rng)], {}
         return [], {"big key": big_value(rng)}
+    sub = (lambda v: gen.subclassed(rng, v, 0.6)) if rng.random() < 0.08 else (lambda v: v)
+    # (sub: the same data held in OrderedDict / defaultdict / namedtuple / user subclasses of list, tuple, dict)
     if rng.random() < 0.5:
-        return [gen.json_value(rng, 3, 3, falsy_bias=0.25) for _ in range(rng.randint(0, 4))], {}
-    return [], {gen.rand_key(rng): gen.json_value(rng, 3, 3, falsy_bias=0.25) for _ in range(rng.randint(0, 4))}
+        return [sub(gen.json_value(rng, 3, 3, falsy_bias=0.25)) for _ in range(rng.randint(0, 4))], {}
+    return [], {gen.rand_key(rng): sub(gen.json_value(rng, 3, 3, falsy_bias=0.25)) for _ in range(rng.randint(0, 4))}
 
 
 def gen_planned(rng):
@@ -159,6 +161,8 @@ def gen_planned(rng):
         return type(v)() if isinstance(v, (list, dict)) else v
     if r < 0.5:
         return (1, ("nested", (None,)), [(), {}])
+    if r < 0.56:
+        return gen.subclassed(rng, gen.json_value(rng, 4, 4, falsy_bias=0.2), 0.6)
     return gen.json_value(rng, 4, 4, falsy_bias=0.2)
 
 
